@@ -98,6 +98,10 @@ func (v *vProcT) compensate() {
 }
 
 func (v *vProcT) noteApps() {
+	// the AppHarvest of every run ever seen: a tick of a timer of a run that has been shut down may still be on its way
+	for id, ah := range v.p.harvests {
+		v.ahs[string(id)] = ah
+	}
 	v.prevEnd = time.Now()
 }
 
@@ -1225,6 +1229,23 @@ func vProcOp(t []string) string {
 			return "stuck"
 		}
 		return "ok"
+	case "latetrigger":
+		// proc latetrigger <run> <mask>: a harvest event of a run that has meanwhile been shut down (it was in the forwarder
+		// goroutine when the run ended) reaches the processor
+		run := AgentRunID(vStr(t, 2))
+		ah := v.ahs[string(run)]
+		if _, live := v.p.harvests[run]; ah == nil || live {
+			return "no-such-run"
+		}
+		select {
+		case v.p.processorHarvestChan <- ProcessorHarvest{AppHarvest: ah, ID: run, Type: HarvestType(vNat(t, 3))}:
+		case <-time.After(vWatchdog):
+			return "stuck"
+		}
+		if !v.tick() {
+			return "stuck"
+		}
+		return "reqs=" + v.collect(vExpect(t))
 	case "trigger":
 		run := AgentRunID(vStr(t, 2))
 		ah := v.p.harvests[run]
